@@ -367,7 +367,7 @@ Definition big_fs : fs :=
 Example index_100000_repaired :
   rname big_c (N.to_nat 99999) = bs "a_r99999.log"%string /\ rname big_c (N.to_nat 100000) = bs "a_r100000.log"%string
   /\ list_log_gz 0 (c_spec big_c) (fixed0 big_c) big_fs IFNum = Some [bs "a_r100000.log"%string; bs "a_r99999.log"%string]
-  /\ let r := cleanup_impl big_c (world_of big_fs) (KLog 1) IFNum false in
+  /\ let r := cleanup_impl big_c (world_of big_fs) (KLog 1) IFNum None in
      fst r = Ok tt
      /\ map (data_at (wfs (snd r))) [bs "a_r99999.log"%string; bs "a_r100000.log"%string; bs "a_rCURRENT.log"%string]
         = [[]; bs "newest"%string; bs "cur"%string]
@@ -397,7 +397,7 @@ Example index_100000_empty_fixed_repaired :
   numkcfg nofix_c (CSize 3) (KLog 1) /\ sfx_ok (c_spec nofix_c) /\ fixed0 nofix_c = []
   /\ rname nofix_c (N.to_nat 99999) = bs "r99999.log"%string /\ rname nofix_c (N.to_nat 100000) = bs "r100000.log"%string
   /\ list_log_gz 0 (c_spec nofix_c) (fixed0 nofix_c) nofix_fs IFNum = Some [bs "r100000.log"%string; bs "r99999.log"%string]
-  /\ let r := cleanup_impl nofix_c (world_of nofix_fs) (KLog 1) IFNum false in
+  /\ let r := cleanup_impl nofix_c (world_of nofix_fs) (KLog 1) IFNum None in
      fst r = Ok tt
      /\ map (data_at (wfs (snd r))) [bs "r99999.log"%string; bs "r100000.log"%string; bs "rCURRENT.log"%string]
         = [[]; bs "newest"%string; bs "cur"%string]
